@@ -68,7 +68,7 @@ POLICIES = [
     # two cooperating addon actions: bodies are streamed and a later hook kills / answers / edits
     ("stream+request", "kill"), ("stream+request", "respond"), ("stream+responseheaders", "kill"), ("stream+response", "kill"),
 ]
-SUSPEND = ["none", "request", "response", "all"]
+SUSPEND = ["none", "request", "responseheaders", "response", "all"]
 FLOW_HOOKS = ("requestheaders", "request", "responseheaders", "response", "error")
 
 
@@ -180,7 +180,10 @@ class Exec:
         return len(msgs) > getattr(e, "answered", 0) or (verdict == "incomplete" and streaming and len(e.w.data) > 0)
 
     def run(self, prefix, t: Tally, verbose=False):
-        w = World(mode="regular", policy=make_policy(self.pol), suspend=make_suspend(self.susp), snap=h1.http_snap)
+        # the suspension mode may carry an option set: "<mode>+limit3" (body_size_limit=3), "<mode>+large3" (stream_large_bodies=3)
+        susp, _, optname = self.susp.partition("+")
+        opts = {"limit3": {"body_size_limit": "3"}, "large3": {"stream_large_bodies": "3"}, "": None}[optname]
+        w = World(mode="regular", policy=make_policy(self.pol), suspend=make_suspend(susp), snap=h1.http_snap, opts=opts)
         script = [tuple(s) for s in BASES[self.base]]
         choices, widths, costs = [], [], []
         trace = []
@@ -302,6 +305,12 @@ def specs(tier):
                 if tier == "quick" and susp == "all" and pol[0] != "pass":
                     continue
                 out.append((base, pol, susp))
+    # option-driven aborts and late switches to streaming, with hooks held at every position
+    for base in BASES:
+        for pol in [("pass", None), ("both", "stream"), ("response", "modify")]:
+            for susp in ("none", "responseheaders", "all"):
+                for optname in ("limit3", "large3"):
+                    out.append((base, pol, susp + "+" + optname))
     return out
 
 
